@@ -22,7 +22,11 @@ RULE = ("exhaustive: every DAG on <=3 (quick) / <=4 (thorough) labelled nodes x 
         "fixed PYTHONHASHSEED.  pgmpy's answer is compared by NAMED assignment with the extracted model (1e-9) and "
         "the model with the extracted brute-force posterior (exactly); sessions: 3-8 queries on ONE engine (roles "
         "re-split over the same node set, other evidence states, repeats, virtual evidence in between), every answer "
-        "checked.  Non-trivial: >=1 edge or evidence, P(e)>0; "
+        "checked; virtual evidence is given with explicit state names in model order AND in every other order (all "
+        "permutations for <=4 states, likelihood = same function of the state NAME): the outcome must be EITHER a "
+        "rejection (ValueError; the model rejects exactly when the order differs, as the code does) OR, if accepted, "
+        "exactly the posterior for the named likelihood; tiny-probability networks (entries down to 2^-40, several rare "
+        "evidence variables, P(e) in 1e-6..1e-30, near-zero query marginals) compared at 1e-9 PURELY relative.  Non-trivial: >=1 edge or evidence, P(e)>0; "
         "distinct = distinct (network, query, evidence, virtual evidence)")
 TRUSTED_BASE = ["numpy/opt_einsum contraction and DiscreteFactor array primitives are modelled by their documented "
                 "pointwise meaning (Base/RefFactor)",
@@ -179,6 +183,9 @@ def session_case(rng, hashseed):
             q, ev, vev = list(prev["Q"]), [list(x) for x in prev["E"]], [list(x) for x in prev["vev"]]
         else:
             q, ev, vev = pick_query(rng, n, cards, True)
+        # sessions use virtual evidence in model order only: a REJECTED virtual evidence leaves the engine with the
+        # augmented model (exception safety / purity = C16; probed and tagged in the vevperm stream)
+        vev = [t[:2] for t in vev]
         steps.append({"Q": q, "E": ev, "vev": vev, "eo": rng.choice(EOS), "joint": rng.random() < 0.6})
     nodes = list(range(n))
     rng.shuffle(nodes)
@@ -202,6 +209,68 @@ def state_names(rng, card, style):
     return l
 
 
+def all_perms(k):
+    return [list(p) for p in itertools.permutations(range(k))]
+
+
+def tiny_case(rng, hashseed):
+    """rare independent alarms: CPD entries down to 2^-40, P(evidence) between 1e-6 and 1e-30"""
+    k = rng.randint(2, 4)
+    hc = rng.choice([2, 3])
+    n = 1 + k + 1
+    H, C = 0, n - 1
+    alarms = list(range(1, 1 + k))
+    edges = [(H, a) for a in alarms if rng.random() < 0.5]
+    cpar = rng.sample(alarms, rng.randint(1, 2))
+    edges += [(a, C) for a in cpar]
+    cards = [hc] + [2] * k + [2]
+    cpds = gen_cpds(rng, n, edges, cards)
+    cpds[str(H)] = {"pa": [], "cols": [[fr(x) for x in rand_col(rng, hc, "pos")]]}
+    budget = rng.randint(20, 100)
+    ms = [max(6, min(40, budget // k + rng.randint(-4, 4))) for _ in alarms]
+    for a, mexp in zip(alarms, ms):
+        pa = cpds[str(a)]["pa"]
+        cols = []
+        for _ in range(hc if pa else 1):
+            me = max(6, min(40, mexp + rng.randint(-3, 3)))
+            cols.append([fr(1 - Fraction(1, 2 ** me)), fr(Fraction(1, 2 ** me))])
+        cpds[str(a)] = {"pa": pa, "cols": cols}
+    obs = rng.sample(alarms, rng.randint(2, k))
+    ev = [[a, 1] for a in obs]
+    rest = [v for v in range(n) if v not in obs]
+    q = rng.sample(rest, rng.randint(1, min(2, len(rest))))
+    if rng.random() < 0.4:
+        # a near-zero, non-zero query marginal: an unobserved alarm, little or no evidence
+        ev = ev[:rng.randint(0, 1)]
+        free = [a for a in alarms if a not in [e[0] for e in ev]]
+        q = [rng.choice(free)] + ([H] if rng.random() < 0.5 else [])
+    nodes = list(range(n))
+    rng.shuffle(nodes)
+    return {"kind": "rand", "shape": "tiny", "rel": True, "n": n, "nodes": nodes, "edges": [list(e) for e in edges],
+            "cards": cards, "cpds": cpds, "nstyle": rng.choice(["str", "int"]), "sstyle": rng.choice(["int", "str"]),
+            "nameseed": rng.randint(0, 10**9), "Q": q, "E": ev, "vev": [], "oseed": rng.randint(0, 10**9),
+            "hashseed": hashseed}
+
+
+def vevperm_case(rng, hashseed):
+    """one virtual evidence on a variable with 3 or 4 states, non-uniform distinct likelihoods; the worker runs it
+    with the state list in EVERY order"""
+    n = rng.choice([2, 3, 4])
+    shape, edges = shape_dag(rng, n)
+    cards = [rng.choice([2, 3]) for _ in range(n)]
+    x = rng.randrange(n)
+    cards[x] = rng.choice([3, 3, 4])
+    vals = rng.sample([Fraction(i, 16) for i in range(1, 16)], cards[x])
+    rest = [v for v in range(n) if v != x]
+    q = [x] if (not rest or rng.random() < 0.4) else rng.sample(rest, rng.randint(1, min(2, len(rest))))
+    e = [v for v in range(n) if v not in q and v != x and rng.random() < 0.3]
+    return {"kind": "vevperm", "shape": shape, "n": n, "nodes": list(range(n)), "edges": [list(e_) for e_ in edges],
+            "cards": cards, "cpds": gen_cpds(rng, n, edges, cards), "nstyle": rng.choice(["str", "int", "tuple"]),
+            "sstyle": rng.choice(["int", "str", "tuple", "mixed"]), "nameseed": rng.randint(0, 10**9),
+            "Q": q, "E": [[v, rng.randrange(cards[v])] for v in e], "x": x, "vals": [fr(v) for v in vals],
+            "oseed": rng.randint(0, 10**9), "hashseed": hashseed}
+
+
 def pick_query(rng, n, cards, allow_vev):
     nodes = list(range(n))
     q = rng.sample(nodes, rng.randint(1, min(3, n)))
@@ -212,7 +281,10 @@ def pick_query(rng, n, cards, allow_vev):
     if allow_vev and rng.random() < 0.5:
         for v in rng.sample(nodes, rng.randint(1, min(2, n))):
             vals = [Fraction(rng.choice([0, 1, 2, 3, 4, 4, 5, 8]), 8) for _ in range(cards[v])]
-            vev.append([v, [fr(x) for x in vals]])
+            t = [v, [fr(x) for x in vals]]
+            if cards[v] >= 2 and rng.random() < 0.25:
+                t.append(rng.choice(all_perms(cards[v])))  # state list in an order of its own
+            vev.append(t)
     return q, ev, vev
 
 
@@ -260,6 +332,12 @@ def cases(tier, seed):
     # query / evidence roles re-split, the same evidence variables in other states, or repeat earlier queries
     for i in range(140 if tier == "quick" else 2000):
         out.append(session_case(rng, hs[i % len(hs)]))
+    # tiny probabilities: P(evidence) in 1e-6 .. 1e-30, near-zero marginals (pure relative comparison)
+    for i in range(60 if tier == "quick" else 800):
+        out.append(tiny_case(rng, hs[i % len(hs)]))
+    # virtual evidence with the state list in every order
+    for i in range(24 if tier == "quick" else 300):
+        out.append(vevperm_case(rng, hs[i % len(hs)]))
     # malformed elimination orders (rejection paths)
     for i in range(12 if tier == "quick" else 60):
         n = rng.choice([3, 4])
@@ -302,7 +380,7 @@ def shrink(case):
             c[key] = case[key][:i] + case[key][i + 1:]
             yield c
     # drop a node that is not used by the query
-    used = set(case["Q"]) | {e[0] for e in case["E"]} | {v[0] for v in case["vev"]}
+    used = set(case["Q"]) | {e[0] for e in case["E"]} | {t[0] for t in case["vev"]}
     for v in range(n):
         if v in used:
             continue
@@ -396,11 +474,21 @@ def table_of_impl(phi, nn, idxn):
     return out
 
 
-def cmp_tables(ti, tm):
+def close(a, b, rel):
+    """rel=False: |a-b| <= 1e-9*max(1,|b|);  rel=True (tiny-probability stream): |a-b| <= 1e-9*|b|"""
+    if not rel:
+        return common.approx(a, b)
+    a, b = float(a), float(b)
+    if a != a:
+        return False
+    return abs(a - b) <= 1e-9 * abs(b)
+
+
+def cmp_tables(ti, tm, rel=False):
     if set(ti) != set(tm):
         return "keys differ"
     for k in tm:
-        if not common.approx(ti[k], tm[k]):
+        if not close(ti[k], tm[k], rel):
             return "value at %s: impl %r model %s" % (sorted(k), ti[k], tm[k])
     return None
 
@@ -440,7 +528,12 @@ def one_query(case, drv, m, nn, sn, Q, E, vev, eo, joint, rng, tags, engine=None
     from pgmpy.inference import VariableElimination
     from pgmpy.factors.discrete import TabularCPD
     n, cards = case["n"], list(case["cards"])
+    rel = bool(case.get("rel"))
     idxn = {repr(x): i for i, x in enumerate(nn)}
+    # a virtual evidence may list the states in an order of its own: [v, vals, perm]; vals stay in MODEL order
+    # (the likelihood is a function of the state NAME), the CPD handed to pgmpy is permuted consistently
+    vperm = [(list(t[2]) if len(t) > 2 else list(range(cards[t[0]]))) for t in vev]
+    vev = [[t[0], t[1]] for t in vev]
     # virtual nodes get ids n + v
     vcards = [[n + v, 2] for v, _ in vev]
     allcards = cards + [0] * n
@@ -456,8 +549,12 @@ def one_query(case, drv, m, nn, sn, Q, E, vev, eo, joint, rng, tags, engine=None
     parg, marg = eo_args(eo, case, Q, E, rng, nn)
     detail["order"] = marg
     evidence = {nn[v]: sn[v][i] for v, i in E} or None
-    virt = [TabularCPD(nn[v], cards[v], [[float(Fraction(a, b))] for a, b in vals], state_names={nn[v]: list(sn[v])})
-            for v, vals in vev] or None
+    virt = [TabularCPD(nn[v], cards[v], [[float(Fraction(*vals[p]))] for p in perm],
+                       state_names={nn[v]: [sn[v][p] for p in perm]})
+            for (v, vals), perm in zip(vev, vperm)] or None
+    # the model's rule (= the code's): a virtual evidence whose state list is not the model's own is rejected
+    reordered = [perm for (v, _), perm in zip(vev, vperm)
+                 if not drv.call("c01_vevok", [list(range(cards[v])), perm])]
     ve = engine or VariableElimination(m)
     if pe == 0:
         tags.append("excluded P(e)=0")
@@ -468,8 +565,16 @@ def one_query(case, drv, m, nn, sn, Q, E, vev, eo, joint, rng, tags, engine=None
         except Exception as ex:
             tags.append("P(e)=0: pgmpy raises %s" % type(ex).__name__)
         return "excluded"
-    res = ve.query([nn[q] for q in Q], evidence=evidence, virtual_evidence=virt, elimination_order=parg,
-                   joint=joint, show_progress=False)
+    try:
+        res = ve.query([nn[q] for q in Q], evidence=evidence, virtual_evidence=virt, elimination_order=parg,
+                       joint=joint, show_progress=False)
+        if reordered:
+            tags.append("vev reordered: accepted (must be exact)")
+    except ValueError:
+        if not reordered:
+            raise
+        tags.append("vev reordered: rejected (ValueError)")
+        return "rejected"
     oflag = rng.random() < 0.5
     mr = drv.call("c01_query", wire + [Q, E, vev_model, marg, joint, oflag])
     cfree = bool(mr[0])
@@ -499,9 +604,9 @@ def one_query(case, drv, m, nn, sn, Q, E, vev, eo, joint, rng, tags, engine=None
         ti = table_of_impl(phi, nn, idxn)
         tm = table_of_model(mod[q], allcards, allsn)
         ts = spec[q]
-        d_im = cmp_tables(ti, tm)
+        d_im = cmp_tables(ti, tm, rel)
         d_ms = None if tm == ts else "model != brute-force posterior"
-        d_is = cmp_tables(ti, ts)
+        d_is = cmp_tables(ti, ts, rel)
         if d_is:
             detail.update({"impl": sorted((sorted(k), v) for k, v in ti.items()),
                            "spec": sorted((sorted(k), str(v)) for k, v in ts.items()),
@@ -526,6 +631,9 @@ def run_queries(case, drv, m, nn, sn, Q, E, vev, configs, rng, tags):
         r = one_query(case, drv, m, nn, sn, Q, E, vev, eo, joint, rng, tags)
         if r == "excluded":
             return None, False
+        if r == "rejected":
+            nt = True
+            continue
         if r is not None:
             return r, True
         nt = True
@@ -574,8 +682,8 @@ def run_case(case, drv):
             from pgmpy.factors.discrete import TabularCPD
             ve = VariableElimination(m)
             ev = {nn[v]: sn[v][i] for v, i in E} or None
-            virt = [TabularCPD(nn[v], cards[v], [[float(Fraction(a, b))] for a, b in vals],
-                               state_names={nn[v]: list(sn[v])}) for v, vals in vev] or None
+            virt = [TabularCPD(nn[t[0]], cards[t[0]], [[float(Fraction(a, b))] for a, b in t[1]],
+                               state_names={nn[t[0]]: list(sn[t[0]])}) for t in vev] or None
             r1 = ve.query([nn[q] for q in Q], evidence=ev, elimination_order="MinFill", show_progress=False)
             try:
                 ve.query([nn[Q[0]]], virtual_evidence=virt, elimination_order="greedy", show_progress=False)
@@ -588,6 +696,44 @@ def run_case(case, drv):
         key = common.canon_key(["rand", case["nodes"], case["edges"], cards, case["cpds"], Q, E, vev, case["nstyle"],
                                 case["sstyle"]])
         return ok(nontrivial=nt and (len(case["edges"]) > 0 or len(E) > 0), key=key, tags=tags)
+    if kind == "vevperm":
+        rng = random.Random(case["oseed"])
+        x = case["x"]
+        tags += ["shape=" + case["shape"], "vev card=%d" % cards[x]]
+        nt = 0
+        for perm in all_perms(cards[x]):
+            for eo, joint in [(rng.choice(EOS), True), (rng.choice(EOS), False)]:
+                r = one_query(case, drv, m, nn, sn, case["Q"], case["E"], [[x, case["vals"], perm]], eo, joint, rng, tags)
+                if r == "excluded":
+                    return ok(nontrivial=False, tags=tags)
+                if r == "rejected":
+                    nt += 1
+                    continue
+                if r is not None:
+                    r["detail"]["state_order"] = perm
+                    return dict(r, kind="vevperm:" + r["kind"], key=common.canon_key(case), tags=tags)
+                nt += 1
+        # probe (recorded only; purity is C16): after a rejected virtual evidence, a valid one on the SAME engine
+        from pgmpy.inference import VariableElimination
+        from pgmpy.factors.discrete import TabularCPD
+        ve = VariableElimination(m)
+        vals = case["vals"]
+        perm = all_perms(cards[x])[1]
+        bad_cpd = TabularCPD(nn[x], cards[x], [[float(Fraction(*vals[p]))] for p in perm],
+                             state_names={nn[x]: [sn[x][p] for p in perm]})
+        good_cpd = TabularCPD(nn[x], cards[x], [[float(Fraction(*v))] for v in vals], state_names={nn[x]: list(sn[x])})
+        try:
+            ve.query([nn[case["Q"][0]]], virtual_evidence=[bad_cpd], show_progress=False)
+        except ValueError:
+            if set(repr(y) for y in ve.model.nodes()) != set(repr(y) for y in m.nodes()):
+                tags.append("ANOMALY engine keeps augmented model after a rejected virtual evidence")
+            try:
+                ve.query([nn[case["Q"][0]]], virtual_evidence=[good_cpd], show_progress=False)
+            except Exception as ex:
+                tags.append("ANOMALY valid virtual evidence raises %s after a rejected one on the same engine"
+                            % type(ex).__name__)
+        return ok(nontrivial=nt > 0, key=common.canon_key(["vevperm", case["edges"], cards, case["cpds"], case["Q"],
+                                                           case["E"], x, case["vals"]]), tags=tags)
     if kind == "session":
         from pgmpy.inference import VariableElimination
         rng = random.Random(case["oseed"])
@@ -598,13 +744,21 @@ def run_case(case, drv):
             r = one_query(case, drv, m, nn, sn, st["Q"], st["E"], st["vev"], st["eo"], st["joint"], rng, tags, engine=ve)
             if r == "excluded":
                 continue
+            if r == "rejected":
+                nt += 1
+                continue
             if r is not None:
                 r["detail"]["step"] = k
                 r["detail"]["earlier_steps"] = case["steps"][:k]
                 return dict(r, kind="session:" + r["kind"], key=common.canon_key(case), tags=tags)
             nt += 1
         if set(repr(x) for x in ve.model.nodes()) != set(repr(x) for x in m.nodes()):
-            return bad("session:engine-model-not-restored", {"engine_nodes": repr(list(ve.model.nodes()))})
+            if any("rejected" in t for t in tags):
+                # after a REJECTED virtual evidence the engine keeps the augmented copy (Inference.__init__ assigns
+                # self.model before check_model raises); later answers were still checked above.  Purity is C16.
+                tags.append("ANOMALY engine keeps augmented model after a rejected virtual evidence")
+            else:
+                return bad("session:engine-model-not-restored", {"engine_nodes": repr(list(ve.model.nodes()))})
         return ok(nontrivial=nt >= 2, key=common.canon_key(["session", case["nodes"], case["edges"], cards, case["cpds"],
                                                             case["steps"], case["nstyle"], case["sstyle"]]),
                   tags=tags + ["session answered=%d" % nt])
